@@ -11,7 +11,7 @@
 EXTENDS Z80, Json, IOUtils
 
 Cases == JsonDeserialize(IOEnv.CASES)
-VARIABLES tid, l, r, ov, rb, ovb, verdict
+VARIABLES tid, l, r, ov, rb, ovb, acc, verdict
 
 Compared == ((1..13) \ {rF}) \cup {15} \cup (17..24) \cup {rIFF, rIM, rHALT}
 
@@ -38,13 +38,16 @@ Judge(c, fin) ==
 \* else (an open bit flowed into a register, memory, the path taken) the case is not judged ("skip").
 Hav(e, h) == [e.r EXCEPT ![rF] = And8(e.r[rF], e.mask) + And8(h, 255 - e.mask)]
 
-\* one TLC step = one instruction (no interrupts: run(start, stop) is called with interrupts off); the run ends when PC = stop
+\* one TLC step = one instruction, followed by the frame interrupt if the run has interrupts on and it is accepted
+\* (Z80!StepInt); the run ends when PC = stop
 Init == /\ tid \in 1..Len(Cases) /\ l = 0 /\ verdict = "pending"
-        /\ r = Cases[tid].r0 /\ ov = Cases[tid].ov0 /\ rb = Cases[tid].r0 /\ ovb = Cases[tid].ov0
+        /\ r = Cases[tid].r0 /\ ov = Cases[tid].ov0 /\ rb = Cases[tid].r0 /\ ovb = Cases[tid].ov0 /\ acc = 0
 Next == /\ verdict = "pending"
         /\ LET c == Cases[tid]
-               S(rr, oo) == Step([r |-> rr, ov |-> oo, inv |-> c.inv, frame |-> c.frame, ia |-> c.ia, tA |-> -1])
+               S(rr, oo) == StepInt([r |-> rr, ov |-> oo, inv |-> c.inv, frame |-> c.frame, ia |-> c.ia, tA |-> -1], c.ints = 1)
                e == S(r, ov)
+               s0 == [r |-> r, ov |-> ov, inv |-> c.inv, frame |-> c.frame, ia |-> c.ia, tA |-> -1]
+               taken == IF c.ints = 1 /\ IntAccepts(s0, Step(s0)) THEN 1 ELSE 0
                eb == S(rb, ovb)
                ra == Hav(e, 0)
                rc == Hav(eb, 255)
@@ -53,10 +56,13 @@ Next == /\ verdict = "pending"
                fin == [r |-> ra, ov |-> ov \o e.wr, mask |-> 255 - Xor8(ra[rF], rc[rF])]
            IN /\ r' = ra /\ rb' = rc
               /\ ov' = ov \o e.wr /\ ovb' = ovb \o eb.wr
+              /\ acc' = acc + taken
               /\ verdict' = IF ra[rPC] = c.stop \/ rc[rPC] = c.stop
                             THEN (IF same THEN Judge(c, fin) ELSE "skip:open-flag-bit-flowed-on")
-                            ELSE IF l + 1 >= c.max THEN "machinery:spec-run-did-not-reach-stop" ELSE "pending"
+                            ELSE IF l + 1 >= c.max THEN "skip:longer-than-max" ELSE "pending"
         /\ l' = l + 1
         /\ UNCHANGED tid
         /\ (verdict' \in {"ok", "pending"} \/ PrintT(<<"FAIL", tid, verdict'>>))
+        \* (both reports come after every primed variable is determined: evaluated as predicates, not as branches)
+        /\ (verdict' = "pending" \/ PrintT(<<"LEN", tid, l + 1, acc'>>))
 =============================================================================
